@@ -1,12 +1,16 @@
 /-! C10: model of the code-generation-time checks of the OpenMP / OpenACC directive nodes
 (`validate_global_constraints` of every directive class in
-`src/psyclone/psyir/nodes/omp_directives.py` / `acc_directives.py`,
+`src/psyclone/psyir/nodes/omp_directives.py`, `omp_task_directive.py`, `acc_directives.py`,
 `OMPDoDirective._validate_single_loop`, `OMPDoDirective._validate_collapse_value`) as they are
 run by `PSyIRVisitor._visit` (pre-order: node, then its children, then its following siblings),
-and of the OpenMP 4.5 / OpenACC nesting rules the property names.
+of the OpenMP 4.5 / 5.0 and OpenACC nesting rules the property names, and of the shape of the
+directive-inserting transformations (`ParallelRegionTrans.apply`, `ParallelLoopTrans.validate/apply`,
+the stand-alone directive insertions).
 
-MODE: this file models the code WITH the candidate fixes `fixes/C10-*.patch` applied (the lines
-marked `(fix)`); on the unfixed tree the harness reports the missing refusals as violations.
+MODE: this file models the code WITH the fixes of /repo commits d0e6145 / 053c279 and the candidate
+fixes `fixes/C10-collapse-rectangular.patch` (a), `fixes/C10-omp-acc-mixing.patch` (b),
+`fixes/C10-teams-simd-region-nesting.patch` (c), `fixes/C10-acc-standalone-placement.patch` (d);
+lines that exist only because of (a)–(d) are marked.
 
 A PSyIR statement list is a first-child / next-sibling `Forest` (non-nested inductive, so every
 function below is structurally recursive and evaluates under `decide`).  Core Lean only. -/
@@ -15,12 +19,16 @@ namespace C10
 /-- Node kinds.  The `Nat` of a loop directive is its collapse value, `0` = no clause
 (Python `None`, falsy).  The `Nat` of a `loop` is `0` when its bounds reference no variable of an
 enclosing loop, and otherwise the distance (in loop levels, 1 = the directly enclosing loop) of the
-nearest enclosing loop whose variable its start/stop/step expressions reference. -/
+nearest enclosing loop whose variable its start/stop/step expressions reference.  `astmt` is an
+assignment of the form `x = x op e` / `x = e op x` / `x = intr(.., x, ..)` (an atomic update
+statement), `stmt` any other assignment or call, `block` an `if` without `else`. -/
 inductive Kind where
-  | stmt | block | loop (dep : Nat)
-  | ompParallel | ompDo (c : Nat) | ompParallelDo (c : Nat) | ompLoop (c : Nat)
-  | ompSingle | ompMaster | ompTaskloop | ompTaskwait | ompTarget
-  | accParallel | accKernels | accData | accLoop (c : Nat) | accEnterData
+  | stmt | astmt | block | loop (dep : Nat)
+  | ompParallel | ompDo (c : Nat) | ompParallelDo (c : Nat) | ompTeamsDPD (c : Nat) | ompLoop (c : Nat)
+  | ompSingle (nowait : Bool) | ompMaster | ompTaskloop | ompTask | ompTaskwait | ompTarget
+  | ompAtomic | ompSimd | ompDeclareTarget
+  | accParallel | accKernels | accData | accLoop (c : Nat) | accAtomic
+  | accEnterData | accUpdate | accRoutine
   deriving DecidableEq, Repr
 
 /-- A statement list: `cons k body rest` is a node of kind `k` whose (directive / loop / if) body is
@@ -30,7 +38,8 @@ inductive Forest where
   | cons (k : Kind) (body : Forest) (rest : Forest)
   deriving DecidableEq, Repr
 
-/-- What `FortranWriter()(tree)` does as far as the modelled checks are concerned. -/
+/-- What `FortranWriter()(tree)` does as far as the modelled checks are concerned; `crash` is the
+`IndexError` of `cursor.loop_body.children[0]` in `_validate_collapse_value`. -/
 inductive Outcome where
   | accept | genError | crash
   deriving DecidableEq, Repr
@@ -39,28 +48,46 @@ def Outcome.andThen : Outcome → Outcome → Outcome
   | .accept, o => o
   | e, _ => e
 
+/-- Position of a node among its siblings: `first` = index 0, `lead` = only preceded by declarative
+directives (`omp declare target`, `acc routine`), `later` = anything else. -/
+inductive Pos where
+  | first | lead | later
+  deriving DecidableEq, Repr
+
 /-! ### class predicates (`isinstance`) -/
-/-- `isinstance(k, OMPParallelDirective)` (OMPParallelDoDirective is a subclass). -/
+/-- `isinstance(k, OMPParallelDirective)` (parallel do and teams distribute parallel do are subclasses). -/
 def isOmpPar : Kind → Bool
-  | .ompParallel | .ompParallelDo _ => true
+  | .ompParallel | .ompParallelDo _ | .ompTeamsDPD _ => true
   | _ => false
 /-- `isinstance(k, OMPParallelDirective)` and not `OMPParallelDoDirective`. -/
 def isPlainPar : Kind → Bool
   | .ompParallel => true
   | _ => false
-/-- `isinstance(k, OMPDoDirective)` (OMPParallelDoDirective is a subclass). -/
+/-- `isinstance(k, OMPDoDirective)`. -/
 def isDoLike : Kind → Bool
-  | .ompDo _ | .ompParallelDo _ => true
+  | .ompDo _ | .ompParallelDo _ | .ompTeamsDPD _ => true
   | _ => false
 /-- `isinstance(k, OMPSerialDirective)`. -/
 def isSerial : Kind → Bool
-  | .ompSingle | .ompMaster => true
+  | .ompSingle _ | .ompMaster => true
+  | _ => false
+def isSingle : Kind → Bool
+  | .ompSingle _ => true
   | _ => false
 def isTaskloop : Kind → Bool
   | .ompTaskloop => true
   | _ => false
+def isTask : Kind → Bool
+  | .ompTask => true
+  | _ => false
 def isOmpLoop : Kind → Bool
   | .ompLoop _ => true
+  | _ => false
+def isSimd : Kind → Bool
+  | .ompSimd => true
+  | _ => false
+def isOmpAtomic : Kind → Bool
+  | .ompAtomic => true
   | _ => false
 def isTarget : Kind → Bool
   | .ompTarget => true
@@ -71,19 +98,32 @@ def isAccCompute : Kind → Bool
   | _ => false
 /-- `isinstance(k, OMPDirective)`. -/
 def isOmp : Kind → Bool
-  | .ompParallel | .ompDo _ | .ompParallelDo _ | .ompLoop _ | .ompSingle | .ompMaster
-  | .ompTaskloop | .ompTaskwait | .ompTarget => true
+  | .ompParallel | .ompDo _ | .ompParallelDo _ | .ompTeamsDPD _ | .ompLoop _ | .ompSingle _ | .ompMaster
+  | .ompTaskloop | .ompTask | .ompTaskwait | .ompTarget | .ompAtomic | .ompSimd | .ompDeclareTarget => true
   | _ => false
 /-- `isinstance(k, ACCDirective)`. -/
 def isAcc : Kind → Bool
-  | .accParallel | .accKernels | .accData | .accLoop _ | .accEnterData => true
+  | .accParallel | .accKernels | .accData | .accLoop _ | .accAtomic | .accEnterData | .accUpdate
+  | .accRoutine => true
   | _ => false
-def isLoop : Kind → Bool
-  | .loop _ => true
+/-- Declarative directives that live at the top of a routine. -/
+def isDecl : Kind → Bool
+  | .ompDeclareTarget | .accRoutine => true
+  | _ => false
+/-- Nodes that have no statement body in the PSyIR (assignments, calls, stand-alone directives);
+the `body` field of such a node is ignored by every function below. -/
+def isLeaf : Kind → Bool
+  | .stmt | .astmt | .ompTaskwait | .ompDeclareTarget | .accEnterData | .accUpdate | .accRoutine => true
   | _ => false
 
 /-- Ancestors of a node, innermost first; `ctx.any p` is `self.ancestor(p) is not None`. -/
 abbrev Ctx := List Kind
+
+/-- position of the next sibling -/
+def Pos.next (p : Pos) (k : Kind) : Pos :=
+  match p with
+  | .later => .later
+  | _ => if isDecl k then .lead else .later
 
 /-! ### the writer's checks -/
 
@@ -93,69 +133,150 @@ def singleLoop : Forest → Bool
   | .cons (.loop _) _ .nil => true
   | _ => false
 
-/-- `OMPDoDirective._validate_collapse_value` (and the identical loop in `OMPLoopDirective` (fix)):
+/-- `OMPDoDirective._validate_collapse_value` (and the identical loop in `OMPLoopDirective`):
 ```
-cursor = self.dir_body.children[0]
+cursor = self.dir_body.children[0]; outer_vars = []
 for depth in range(self._collapse):
     if len(cursor.parent.children) != 1 or not isinstance(cursor, Loop): raise GenerationError
+    if <bounds of cursor reference a symbol in outer_vars>: raise GenerationError      # (a)
+    outer_vars.append(cursor.variable)
     cursor = cursor.loop_body.children[0]        # IndexError on an empty loop body
 ```
-Called after `singleLoop` succeeded, so the first `children[0]` exists. -/
-def collapseOmp : Nat → Forest → Outcome
-  | 0, _ => .accept
-  | n+1, .cons (.loop _) body .nil =>
-    match body with
-    | .nil => .crash
-    | _ => collapseOmp n body
-  | _+1, _ => .genError
+Called after `singleLoop` succeeded, so the first `children[0]` exists.  `d` = current depth. -/
+def collapseOmp : Nat → Nat → Forest → Outcome
+  | 0, _, _ => .accept
+  | n+1, d, .cons (.loop dep) body .nil =>
+    if dep == 0 || d < dep then
+      match body with
+      | .nil => .crash
+      | _ => collapseOmp n (d + 1) body
+    else .genError
+  | _+1, _, _ => .genError
 
-/-- (fix) the loop added to `ACCLoopDirective.validate_global_constraints`: `max collapse 1`
-perfectly nested loops, empty bodies handled without an exception. -/
-def collapseAcc : Nat → Forest → Bool
-  | 0, _ => true
-  | n+1, .cons (.loop _) body .nil => collapseAcc n body
-  | _+1, _ => false
+/-- the loop in `ACCLoopDirective.validate_global_constraints`: `max collapse 1` perfectly nested
+loops, rectangular (a), empty bodies handled without an exception. -/
+def collapseAcc : Nat → Nat → Forest → Bool
+  | 0, _, _ => true
+  | n+1, d, .cons (.loop dep) body .nil => (dep == 0 || d < dep) && collapseAcc n (d + 1) body
+  | _+1, _, _ => false
 
-/-- (fix) `self.dir_body.walk(OMPDirective, stop_type=OMPParallelDirective)` finds a node that is
-not a parallel / loop (/ simd) construct. -/
+/-- `self.dir_body.walk(OMPDirective, stop_type=OMPParallelDirective)` of `OMPLoopDirective` finds a
+node that is not a parallel / loop / simd construct. -/
 def loopRegionBad : Forest → Bool
   | .nil => false
   | .cons k body rest =>
-    (isOmp k && !(isOmpPar k || isOmpLoop k)) || (!(isOmpPar k) && loopRegionBad body)
+    (isOmp k && !(isOmpPar k || isOmpLoop k || isSimd k))
+      || (!(isOmpPar k) && !(isLeaf k) && loopRegionBad body)
       || loopRegionBad rest
+
+/-- (c) `self.dir_body.walk(OMPDirective)` of `OMPSimdDirective` finds a node that is not a simd /
+loop / atomic construct. -/
+def simdRegionBad : Forest → Bool
+  | .nil => false
+  | .cons k body rest =>
+    (isOmp k && !(isSimd k || isOmpLoop k || isOmpAtomic k))
+      || (!(isLeaf k) && simdRegionBad body)
+      || simdRegionBad rest
+
+/-- (b) `self.walk(OMPDirective)` of an ACC region directive is non-empty. -/
+def containsOmp : Forest → Bool
+  | .nil => false
+  | .cons k body rest => isOmp k || (!(isLeaf k) && containsOmp body) || containsOmp rest
+
+/-- `parent_routine.walk(ACCRoutineDirective)` is non-empty. -/
+def containsAccRoutine : Forest → Bool
+  | .nil => false
+  | .cons k body rest =>
+    k == .accRoutine || (!(isLeaf k) && containsAccRoutine body) || containsAccRoutine rest
+
+/-- (d) the routine contains an OpenACC parallel/kernels region or an OpenMP directive other than
+`declare target` (`ACCRoutineDirective.validate_global_constraints`) -/
+def routineBad : Forest → Bool
+  | .nil => false
+  | .cons k body rest =>
+    isAccCompute k || (isOmp k && k != .ompDeclareTarget) || (!(isLeaf k) && routineBad body)
+      || routineBad rest
+
+/-- whole-routine facts some checks look at -/
+structure Env where
+  /-- the routine contains an `acc routine` directive -/
+  ar : Bool
+  /-- `routineBad` of the routine -/
+  rb : Bool
+  deriving Repr
+
+def envOf (t : Forest) : Env := ⟨containsAccRoutine t, routineBad t⟩
+
+/-- `OMPAtomicDirective` / `ACCAtomicDirective`: exactly one child and it is a valid atomic
+statement. -/
+def atomicBody : Forest → Bool
+  | .cons .astmt _ .nil => true
+  | _ => false
+
+/-- (c) `self.ancestor(OMPDirective)` of a teams directive is `None` or an `OMPTargetDirective`. -/
+def teamsPlace : Ctx → Bool
+  | [] => true
+  | a :: rest => if isOmp a then isTarget a else teamsPlace rest
+
+/-- `self.ancestor(OMPSingleDirective)` exists and has no `nowait`. -/
+def taskPlace : Ctx → Bool
+  | [] => false
+  | .ompSingle nw :: _ => !nw
+  | _ :: rest => taskPlace rest
 
 def guard (b : Bool) : Outcome := if b then .accept else .genError
 
-/-- `validate_global_constraints` of one node of kind `k` with ancestors `ctx` and body `body`. -/
-def nodeOut (ctx : Ctx) (k : Kind) (body : Forest) : Outcome :=
+/-- `validate_global_constraints` of one node of kind `k` at sibling position `pos`, with ancestors
+`ctx` and body `body`; `env` = whole-routine facts. -/
+def nodeOut (env : Env) (pos : Pos) (ctx : Ctx) (k : Kind) (body : Forest) : Outcome :=
   match k with
-  | .stmt | .block | .loop _ | .ompTarget | .accEnterData => .accept
+  | .stmt | .astmt | .block | .loop _ | .ompTarget => .accept
   | .ompTaskwait => guard (ctx.any isPlainPar)
-  | .ompSingle | .ompMaster =>
+  | .ompSingle _ | .ompMaster =>
     guard (ctx.any isPlainPar && !ctx.any isSerial
-           && !ctx.any (fun a => isDoLike a || isTaskloop a))            -- (fix)
+           && !ctx.any (fun a => isDoLike a || isTaskloop a))
   | .ompParallel => guard (!ctx.any isOmpPar)
   | .ompParallelDo c =>
-    (guard (!ctx.any isOmpPar && singleLoop body)).andThen (collapseOmp c body)
+    (guard (!ctx.any isOmpPar && singleLoop body)).andThen (collapseOmp c 0 body)
+  | .ompTeamsDPD c =>
+    (guard (teamsPlace ctx /- (c) -/ && !ctx.any isOmpPar && singleLoop body)).andThen
+      (collapseOmp c 0 body)
   | .ompDo c =>
     (guard (ctx.any isPlainPar
-            && !ctx.any (fun a => isDoLike a || isSerial a || isTaskloop a)   -- (fix)
-            && singleLoop body)).andThen (collapseOmp c body)
-  | .ompTaskloop => guard (ctx.any isSerial && singleLoop body /- (fix) -/)
+            && !ctx.any (fun a => isDoLike a || isSerial a || isTaskloop a)
+            && singleLoop body)).andThen (collapseOmp c 0 body)
+  | .ompTaskloop => guard (ctx.any isSerial && singleLoop body)
+  | .ompTask => guard (taskPlace ctx)
   | .ompLoop c =>
     (guard (singleLoop body && ctx.any (fun a => isTarget a || isOmpPar a)
-            && !loopRegionBad body /- (fix) -/)).andThen (collapseOmp c body)
-  | .accParallel | .accKernels | .accData => guard (!ctx.any isAccCompute)       -- (fix)
-  | .accLoop c => guard (ctx.any isAccCompute && collapseAcc (max c 1) body /- (fix) -/)
+            && !loopRegionBad body)).andThen (collapseOmp c 0 body)
+  | .ompAtomic => guard (atomicBody body)
+  | .ompSimd => guard (singleLoop body && !simdRegionBad body /- (c) -/)
+  | .ompDeclareTarget => guard (ctx.isEmpty && pos == .first)
+  | .accParallel | .accKernels | .accData =>
+    guard (!ctx.any isAccCompute && !ctx.any isOmp && !containsOmp body /- (b) -/)
+  | .accLoop c =>
+    guard ((ctx.any isAccCompute || env.ar) && collapseAcc (max c 1) 0 body
+           && !ctx.any isOmp && !containsOmp body /- (b) -/)
+  | .accAtomic => guard (atomicBody body && !ctx.any isOmp && !containsOmp body /- (b) -/)
+  | .accEnterData | .accUpdate => guard (!ctx.any isAccCompute /- (d) -/ && !ctx.any isOmp /- (b) -/)
+  | .accRoutine => guard (ctx.isEmpty && pos != .later && !env.rb /- (d) -/)
 
 /-- The visitor: validate the node, then its children, then the following siblings; the first
 exception ends the run. -/
-def writer (ctx : Ctx) : Forest → Outcome
+def writerAux (env : Env) (pos : Pos) (ctx : Ctx) : Forest → Outcome
   | .nil => .accept
   | .cons k body rest =>
-    (nodeOut ctx k body).andThen ((writer (k :: ctx) body).andThen (writer ctx rest))
+    (nodeOut env pos ctx k body).andThen
+      (Outcome.andThen
+        (match isLeaf k with
+         | true => Outcome.accept
+         | false => writerAux env .first (k :: ctx) body)
+        (writerAux env (pos.next k) ctx rest))
 
-def writerAccepts (t : Forest) : Bool := writer [] t == .accept
+def writer (t : Forest) : Outcome := writerAux (envOf t) .first [] t
+
+def writerAccepts (t : Forest) : Bool := writer t == .accept
 
 /-! ### the specification -/
 
@@ -176,51 +297,77 @@ def assocLoops : Nat → Forest → Bool
 
 /-- Rectangular iteration space: the loop at depth `d` of the collapsed nest does not reference the
 variable of any of the `d` associated loops outside it (OpenMP 4.5 §2.6 canonical loop form: lb, b
-and incr are loop invariant w.r.t. the outermost associated loop). -/
+and incr are loop invariant w.r.t. the outermost associated loop; gcc: "collapsed loops don't form
+rectangular iteration space"). -/
 def rectNest : Nat → Nat → Forest → Bool
   | 0, _, _ => true
   | n+1, d, .cons (.loop dep) body .nil => (dep == 0 || d < dep) && rectNest n (d + 1) body
   | _+1, _, _ => true
 
-/-- Core rules, one node. -/
-def nodeCore (ctx : Ctx) (k : Kind) (body : Forest) : Bool :=
+/-- Nesting / association rules, one node. -/
+def nodeCore (env : Env) (pos : Pos) (ctx : Ctx) (k : Kind) (body : Forest) : Bool :=
   match k with
-  | .stmt | .block | .loop _ | .ompTarget | .accEnterData => true
+  | .stmt | .astmt | .block | .loop _ | .ompTarget => true
   -- property clause 1 ("no loop directive sits outside a parallel region"), applied to every
   -- construct that binds to a team
   | .ompTaskwait => ctx.any isOmpPar
   -- OpenMP 4.5 §2.17: "A worksharing region may not be closely nested inside a worksharing,
   -- explicit task, taskloop, critical, ordered, atomic, or master region."
-  | .ompSingle =>
-    ctx.any isOmpPar && !closelyIn (fun a => isDoLike a || isSerial a || isTaskloop a) ctx
+  | .ompSingle _ =>
+    ctx.any isOmpPar
+      && !closelyIn (fun a => isDoLike a || isSerial a || isTaskloop a || isTask a) ctx
   -- OpenMP 4.5 §2.17: "A master region may not be closely nested inside a worksharing, atomic, or
   -- explicit task region." (taskloop generates explicit tasks)
   | .ompMaster =>
-    ctx.any isOmpPar && !closelyIn (fun a => isDoLike a || a == .ompSingle || isTaskloop a) ctx
+    ctx.any isOmpPar
+      && !closelyIn (fun a => isDoLike a || isSingle a || isTaskloop a || isTask a) ctx
   -- property clause 2 ("parallel regions are not nested")
   | .ompParallel => !ctx.any isOmpPar
   | .ompParallelDo c => !ctx.any isOmpPar && assocLoops (max c 1) body
+  -- OpenMP 4.5 §2.10.7 / 5.0 §2.7: a teams region is strictly nested inside a target region (or is
+  -- not nested in any OpenMP region); plus the parallel-do rules
+  | .ompTeamsDPD c => teamsPlace ctx && !ctx.any isOmpPar && assocLoops (max c 1) body
   -- clause 1 + §2.17 worksharing rule + clause 3 (collapse(n) ⇒ n perfectly nested loops)
   | .ompDo c =>
-    ctx.any isOmpPar && !closelyIn (fun a => isDoLike a || isSerial a || isTaskloop a) ctx
+    ctx.any isOmpPar
+      && !closelyIn (fun a => isDoLike a || isSerial a || isTaskloop a || isTask a) ctx
       && assocLoops (max c 1) body
-  -- design rule: taskloop only inside a single/master region; §2.9.2 taskloop is loop-associated
-  | .ompTaskloop => ctx.any isSerial && assocLoops 1 body
+  -- clause 1; design rule: taskloop only inside a single/master region; §2.9.2 loop-associated
+  | .ompTaskloop => ctx.any isOmpPar && ctx.any isSerial && assocLoops 1 body
+  -- clause 1; design rule: explicit tasks only inside a single region
+  | .ompTask => ctx.any isOmpPar && ctx.any isSingle
   -- OpenMP 5.0 §2.9.5 loop construct (binds to a parallel or, via target, teams region) and §2.20:
   -- "OpenMP constructs other than parallel, loop or simd may not be nested inside a loop region"
   | .ompLoop c =>
     ctx.any (fun a => isTarget a || isOmpPar a) && !loopRegionBad body && assocLoops (max c 1) body
+  -- OpenMP 4.5 §2.13.6: the atomic construct applies to one update statement
+  | .ompAtomic => atomicBody body
+  -- OpenMP 4.5 §2.8.1 (simd is loop-associated) and 5.0 §2.20: only simd, loop, atomic (and ordered
+  -- simd) constructs may be encountered inside a simd region
+  | .ompSimd => assocLoops 1 body && !simdRegionBad body
+  -- OpenMP 4.5 §2.10.6: the declare target directive appears in the specification part
+  | .ompDeclareTarget => ctx.isEmpty && pos != .later
   -- OpenACC 2.6 §2.5: compute constructs (and data constructs) may not appear inside a compute
   -- construct (gcc: "'kernels' construct inside of 'parallel' region")
   | .accParallel | .accKernels | .accData => !ctx.any isAccCompute
-  -- OpenACC 2.6 §2.9: a loop construct must be inside a parallel/kernels region (orphaned loops
-  -- only in `acc routine`s, not modelled); §2.9.1 collapse(n) ⇒ n tightly nested loops
-  | .accLoop c => ctx.any isAccCompute && assocLoops (max c 1) body
+  -- OpenACC 2.6 §2.9: a loop construct is inside a parallel/kernels region or orphaned in a routine
+  -- that has an `acc routine` directive; §2.9.1 collapse(n) ⇒ n tightly nested loops
+  | .accLoop c => (ctx.any isAccCompute || env.ar) && assocLoops (max c 1) body
+  -- OpenACC 2.6 §2.12
+  | .accAtomic => atomicBody body
+  -- OpenACC 2.6 §2.6.6 / §2.14.4: enter data and update are executable directives of the host
+  -- program, not of a compute region (gcc: "'update' construct inside of 'parallel' region")
+  | .accEnterData | .accUpdate => !ctx.any isAccCompute
+  -- OpenACC 2.6 §2.15.1: the routine directive appears in the specification part; a routine compiled
+  -- for the device contains no compute construct (gcc: "OpenACC region inside of OpenACC routine,
+  -- nested parallelism not supported yet") and no OpenMP construct (gcc: "non-OpenACC construct inside
+  -- of OpenACC routine")
+  | .accRoutine => ctx.isEmpty && pos != .later && !env.rb
 
 /-- Rectangularity of collapsed nests, one node. -/
 def nodeRect (k : Kind) (body : Forest) : Bool :=
   match k with
-  | .ompDo c | .ompParallelDo c | .ompLoop c | .accLoop c => rectNest c 0 body
+  | .ompDo c | .ompParallelDo c | .ompTeamsDPD c | .ompLoop c | .accLoop c => rectNest c 0 body
   | _ => true
 
 /-- No OpenMP construct inside an OpenACC region and vice versa (gcc: "The !$OMP PARALLEL DO
@@ -228,25 +375,153 @@ directive cannot be specified within a !$ACC PARALLEL region"), one node. -/
 def nodeMix (ctx : Ctx) (k : Kind) : Bool :=
   !(isOmp k && ctx.any isAcc) && !(isAcc k && ctx.any isOmp)
 
-def coreOk (ctx : Ctx) : Forest → Bool
+/-- Fortran syntax of OpenMP 4.5 §2.7.3: `nowait` belongs on `!$omp end single`; the writer prints
+the clause on the opening line, which gfortran 12 rejects ("Failed to match clause"). -/
+def nodeNowait (k : Kind) : Bool :=
+  match k with
+  | .ompSingle nw => !nw
+  | _ => true
+
+def coreOk (env : Env) (pos : Pos) (ctx : Ctx) : Forest → Bool
   | .nil => true
-  | .cons k body rest => nodeCore ctx k body && coreOk (k :: ctx) body && coreOk ctx rest
+  | .cons k body rest =>
+    nodeCore env pos ctx k body
+      && (match isLeaf k with
+          | true => true
+          | false => coreOk env .first (k :: ctx) body)
+      && coreOk env (pos.next k) ctx rest
 
 def rectOk : Forest → Bool
   | .nil => true
-  | .cons k body rest => nodeRect k body && rectOk body && rectOk rest
+  | .cons k body rest =>
+    nodeRect k body
+      && (match isLeaf k with
+          | true => true
+          | false => rectOk body)
+      && rectOk rest
 
 def mixOk (ctx : Ctx) : Forest → Bool
   | .nil => true
-  | .cons k body rest => nodeMix ctx k && mixOk (k :: ctx) body && mixOk ctx rest
+  | .cons k body rest =>
+    nodeMix ctx k
+      && (match isLeaf k with
+          | true => true
+          | false => mixOk (k :: ctx) body)
+      && mixOk ctx rest
 
-/-- The nesting / association rules the writer is expected to guard. -/
-def coreValid (t : Forest) : Prop := coreOk [] t = true
+def nowaitOk : Forest → Bool
+  | .nil => true
+  | .cons k body rest =>
+    nodeNowait k
+      && (match isLeaf k with
+          | true => true
+          | false => nowaitOk body)
+      && nowaitOk rest
+
+/-- The nesting / association / rectangularity / no-mixing rules: what the writer guards. -/
+def guardedValid (t : Forest) : Prop :=
+  coreOk (envOf t) .first [] t = true ∧ rectOk t = true ∧ mixOk [] t = true
 /-- The full specification. -/
-def specValid (t : Forest) : Prop := coreOk [] t = true ∧ rectOk t = true ∧ mixOk [] t = true
+def specValid (t : Forest) : Prop := guardedValid t ∧ nowaitOk t = true
 
-/-- Every loop has a non-empty body (true of every tree reachable by the transformations: the
-collapse validation of `ParallelLoopTrans` itself indexes `loop_body[0]`). -/
+/-! ### the transformations (shape only) -/
+
+/-- `ParallelLoopTrans.validate` counting loop:
+`while isinstance(cnode, Loop): loop_count += 1; cnode = cnode.loop_body[0]` — `none` is the
+`IndexError` on an empty loop body (the transformation is then not accepted). -/
+def chainLen : Forest → Option Nat
+  | .cons (.loop _) body _ =>
+    match body with
+    | .nil => none
+    | _ => (chainLen body).map (· + 1)
+  | _ => some 0
+
+/-- collapse option accepted by `ParallelLoopTrans.validate` for the loop at the head of `f`. -/
+def transCollapseOk (c : Nat) (f : Forest) : Bool :=
+  c == 0 || (2 ≤ c && match chainLen f with
+                      | some m => c ≤ m
+                      | none => false)
+
+/-- kinds a region transformation creates (`OMPParallelTrans`, `OMPSingleTrans`, `OMPMasterTrans`,
+`OMPTargetTrans`, `ACCParallelTrans`, `ACCKernelsTrans`, `ACCDataTrans`) -/
+def isRegionKind : Kind → Bool
+  | .ompParallel | .ompSingle _ | .ompMaster | .ompTarget | .accParallel | .accKernels | .accData => true
+  | _ => false
+
+/-- collapse value of the kinds a loop transformation creates (`OMPLoopTrans` in its four flavours,
+`ACCLoopTrans`, `OMPTaskloopTrans`, `OMPTaskTrans`); `none` for every other kind -/
+def loopDirCollapse : Kind → Option Nat
+  | .ompDo c | .ompParallelDo c | .ompTeamsDPD c | .ompLoop c | .accLoop c => some c
+  | .ompTaskloop | .ompTask => some 0
+  | _ => none
+
+/-- kinds inserted as stand-alone directives (`OMPTaskwaitTrans`, `ACCEnterDataTrans`,
+`ACCUpdateTrans`, `OMPDeclareTargetTrans`, `ACCRoutineTrans`) -/
+def isStandalone : Kind → Bool
+  | .ompTaskwait | .ompDeclareTarget | .accEnterData | .accUpdate | .accRoutine => true
+  | _ => false
+
+inductive Op where
+  /-- enclose `len ≥ 1` siblings starting at index `lo` of the schedule at `path` in a region -/
+  | region (k : Kind) (path : List Nat) (lo len : Nat)
+  /-- put the loop at index `idx` of the schedule at `path` under a loop directive -/
+  | loopDir (k : Kind) (path : List Nat) (idx : Nat)
+  /-- insert a stand-alone directive before index `idx` of the schedule at `path` -/
+  | leaf (k : Kind) (path : List Nat) (idx : Nat)
+  deriving Repr
+
+/-- first `n` siblings and the remainder; `none` when there are fewer than `n` -/
+def splitSibs : Nat → Forest → Option (Forest × Forest)
+  | 0, f => some (.nil, f)
+  | _+1, .nil => none
+  | n+1, .cons k b r => (splitSibs n r).map fun (s, post) => (.cons k b s, post)
+
+/-- apply `g` to the sibling list that starts at index `i` -/
+def atSib : Nat → (Forest → Option Forest) → Forest → Option Forest
+  | 0, g, f => g f
+  | _+1, _, .nil => none
+  | i+1, g, .cons k b r => (atSib i g r).map (.cons k b)
+
+/-- apply `g` to the body of the first node -/
+def inBody (g : Forest → Option Forest) : Forest → Option Forest
+  | .nil => none
+  | .cons k b r => if isLeaf k then none else (g b).map fun b' => .cons k b' r
+
+/-- apply `g` to the schedule reached by `path` (sibling index, then into that node's body, …) -/
+def modifyAt : List Nat → (Forest → Option Forest) → Forest → Option Forest
+  | [], g => g
+  | i :: p, g => atSib i (inBody (modifyAt p g))
+
+def wrapRegion (k : Kind) (len : Nat) (f : Forest) : Option Forest :=
+  if isRegionKind k && 0 < len then
+    (splitSibs len f).map fun (seg, post) => .cons k seg post
+  else none
+
+def wrapLoop (k : Kind) (f : Forest) : Option Forest :=
+  match loopDirCollapse k, f with
+  | some c, .cons (.loop d) b r =>
+    if transCollapseOk c (.cons (.loop d) b .nil) then some (.cons k (.cons (.loop d) b .nil) r) else none
+  | _, _ => none
+
+def insertLeaf (k : Kind) (f : Forest) : Option Forest :=
+  if isStandalone k then some (.cons k .nil f) else none
+
+def applyOp : Op → Forest → Option Forest
+  | .region k path lo len => modifyAt path (atSib lo (wrapRegion k len))
+  | .loopDir k path idx => modifyAt path (atSib idx (wrapLoop k))
+  | .leaf k path idx => modifyAt path (atSib idx (insertLeaf k))
+
+/-- no directive at all: the programs the histories start from -/
+def dirFree : Forest → Bool
+  | .nil => true
+  | .cons k body rest => !(isOmp k || isAcc k) && dirFree body && dirFree rest
+
+/-- trees produced by a history of accepted transformations from a directive-free program -/
+inductive Reachable : Forest → Prop where
+  | start (t : Forest) : dirFree t = true → Reachable t
+  | step (t t' : Forest) (op : Op) : Reachable t → applyOp op t = some t' → Reachable t'
+
+/-- Every loop has a non-empty body. -/
 def loopsNonEmpty : Forest → Bool
   | .nil => true
   | .cons k body rest =>
